@@ -50,6 +50,10 @@ func TestC05(t *testing.T) {
 	plan := &docPlan{NValid: 4, Kinds: map[string]bool{"numeric": true}, NTMutant: ntPos, NTValid: func(v jv.V) bool { return true }}
 	runProperty(c, "run", c.N(240, 6000), 0, func(rt *rapid.T) *RunCase {
 		f := prof.File(rt, "prog.json")
+		if rapid.IntRange(0, 3).Draw(rt, "collidingdefs") == 0 {
+			addCollidingDefs(rt, c, f, "numeric")
+		}
+		addOptionalDefaults(rt, c, f, 0.25, o)
 		cs := caseOf(baseConfig(), []string{f.RelPath}, f)
 		jobs := buildJobs(rt, c, f.Root, progRoot, plan, o, cs)
 		c.Sample(sampleOf(cs, jobs))
